@@ -45,3 +45,12 @@ void inst_mirror_asm(Mir& mirror, const SpaceQ1& space, const Geometry::MeshPart
 {
   Assembly::MirrorAssembler::assemble_mirror(mirror, space, halo);
 }
+
+// FunctionIntegralInfo::synchronize packs its members into a buffer, all-reduces it and unpacks it (rule E2.pack-unpack-agree);
+// non-square operand types so that a row / column mix-up is visible in the instantiated loop bounds
+#include <kernel/assembly/function_integral_jobs.hpp>
+typedef Assembly::FunctionIntegralInfo<DT, Tiny::Vector<DT, 2>, Tiny::Matrix<DT, 2, 3>, Tiny::Tensor3<DT, 2, 3, 4>> FuncIntInfo;
+void inst_function_integral_sync(FuncIntInfo& info, const Dist::Comm& comm)
+{
+  info.synchronize(comm);
+}
